@@ -82,7 +82,7 @@ checks.update({
 
  "C03": dict(cat="model_checking", engine="clustermc", ref="6 C03",
    technique="explicit-state BFS over membership, hand-over-step and client-operation events on real members (path replay, canonical state); reads from every member in every state, structural white-box oracle after stabilising a throw-away replay",
-   text="All sequences up to depth 6 (quick) / 7 (thorough) of {Put / Delete of 3 keys (two share a partition) through the oldest or youngest member, join, routing push, one balancer pass on member i (one table per fragment), compaction, janitor, graceful leave (offered only while ReplicaCount distinct members hold every live key)} from 1-2 members up to 3, R in 1..2, 64 KiB and 128-byte tables. Join histories: in every state a Get of every key from every serving member returns the last acknowledged value or not-found; after stabilisation every live key is stored exactly once as a primary copy on the partition owner and keeps its backup copies. Every history: after stabilisation reads return the last acknowledged value, deleted keys are not-found and stored nowhere.",
+   text="All sequences up to depth 6 (quick) / 8 (thorough) of {Put / Delete of 3 keys (two share a partition) through the oldest or youngest member, join, routing push, one balancer pass on member i (one table per fragment), compaction, janitor, graceful leave (offered only while ReplicaCount distinct members hold every live key)} from 1-2 members up to 3, R in 1..2, 64 KiB and 128-byte tables. Join histories: in every state a Get of every key from every serving member returns the last acknowledged value or not-found; after stabilisation every live key is stored exactly once as a primary copy on the partition owner and keeps its backup copies. Every history: after stabilisation reads return the last acknowledged value, deleted keys are not-found and stored nowhere.",
    note="fault part: workloads of Put/Delete and one join run under C02's fault-schedule engine (R=2, one stop per run): at every command of the hand-over (routing push, length queries, each table move) the sender or the receiver stops before or after it; one known finding (all copies transiently on the member that stops, DESIGN 7.2) is attributed by a white-box signature. Membership comes from the fake discovery layer; the join/leave split of the oracle follows the statement (see DESIGN 12)"),
 })
 checks.update({
